@@ -50,21 +50,35 @@ fn voicing(engine0: &Engine, rng: &mut Rng, corpus: &Corpus, evs: &mut Vec<Value
     let dur = durations(&engine, &labels);
     // thresholds: f32-representable values, several equal to a state's voicing weight or one f32 ulp around it
     let mut thr: Vec<f32> = (0..4).map(|_| (rng.below(1025) as f32) / 1024.0).collect();
+    // thresholds that no f32 holds: a hair (1e-10) below / above a state's voicing weight.  (f32 value, side): side -1 means
+    // "just below that f32 value" (a weight equal to it exceeds the threshold), +1 "just above"
+    let mut hair: Vec<(f32, i64)> = Vec::new();
     for _ in 0..3 {
         let w = msd[rng.below(msd.len())] as f32;
         if (0.0..=1.0).contains(&w) {
             thr.push(w);
             thr.push(f32::from_bits(w.to_bits().saturating_sub(1)));
             thr.push(f32::from_bits(w.to_bits() + 1).min(1.0));
+            if w > 0.001 && w < 0.999 {
+                hair.push((w, if rng.chance(0.5) { -1 } else { 1 }));
+            }
         }
     }
     thr.sort_by(|a, b| a.partial_cmp(b).unwrap());
     let base = trajectories(&engine, &lines)?;
+    for (w, side) in hair {
+        let t = w as f64 + side as f64 * 1e-10;
+        engine.condition.set_msd_threshold(1, t);
+        let (_, lf0, _) = trajectories(&engine, &lines)?;
+        let nodata: Vec<bool> = lf0.iter().map(|f| f[0] == NODATA).collect();
+        evs.push(json!({"ev": "voicing", "first": true, "thr_bits": f32bits(w as f64), "side": side, "msd_bits": msd.iter().map(|w| f32bits(*w)).collect::<Vec<_>>(),
+                        "dur": dur, "nodata": nodata}));
+    }
     for (i, t) in thr.iter().enumerate() {
         engine.condition.set_msd_threshold(1, *t as f64);
         let (sp, lf0, lpf) = trajectories(&engine, &lines)?;
         let nodata: Vec<bool> = lf0.iter().map(|f| f[0] == NODATA).collect();
-        evs.push(json!({"ev": "voicing", "first": i == 0, "thr_bits": f32bits(*t as f64), "msd_bits": msd.iter().map(|w| f32bits(*w)).collect::<Vec<_>>(),
+        evs.push(json!({"ev": "voicing", "first": i == 0, "thr_bits": f32bits(*t as f64), "side": 0, "msd_bits": msd.iter().map(|w| f32bits(*w)).collect::<Vec<_>>(),
                         "dur": dur, "nodata": nodata}));
         evs.push(json!({"ev": "isolated", "what": "thr[1]", "spectrum_equal": digest2(&sp) == digest2(&base.0), "lpf_equal": digest2(&lpf) == digest2(&base.2)}));
     }
